@@ -50,9 +50,36 @@ pub fn ts<T: ToTokens>(t: &T) -> String {
     t.to_token_stream().to_string()
 }
 
-/// Token string with all whitespace removed.
+/// Compact token string: tokens concatenated without separators; literal tokens (e.g. `' '`) keep their text.
 pub fn tsc<T: ToTokens>(t: &T) -> String {
-    ts(t).chars().filter(|c| !c.is_whitespace()).collect()
+    fn go(ts: proc_macro2::TokenStream, out: &mut String) {
+        for tt in ts {
+            match tt {
+                proc_macro2::TokenTree::Group(g) => {
+                    let (o, c) = match g.delimiter() {
+                        proc_macro2::Delimiter::Parenthesis => ("(", ")"),
+                        proc_macro2::Delimiter::Brace => ("{", "}"),
+                        proc_macro2::Delimiter::Bracket => ("[", "]"),
+                        proc_macro2::Delimiter::None => ("", ""),
+                    };
+                    out.push_str(o);
+                    go(g.stream(), out);
+                    out.push_str(c);
+                }
+                other => out.push_str(&other.to_string()),
+            }
+        }
+    }
+    let mut out = String::new();
+    go(t.to_token_stream(), &mut out);
+    out
+}
+
+/// Compact text of a statement/local without its attributes.
+pub fn tsc_no_attrs_local(l: &syn::Local) -> String {
+    let mut c = l.clone();
+    c.attrs.clear();
+    tsc(&c)
 }
 
 pub fn line(span: Span) -> usize {
